@@ -499,6 +499,16 @@ func (c *Cluster) DebugState() string {
 		s += fmt.Sprintf("node %d: %s term=%d vote=%d lead=%d log=[%d,%d] commit=%d applied=%d app=%d unstable=%d/%v voters=%v out=%v learners=%v ln=%v auto=%v async=%v q=%d/%d/%d/%d rd=%v msgs=%d/%d\n",
 			id, st.State, st.Term, st.Vote, st.Lead, st.FirstIndex, st.LastIndex, st.Committed, st.Applied, n.app.cur.Index, len(st.UnstableEntries), st.UnstableSnapshot != nil,
 			st.Voters, st.VotersOutgoing, st.Learners, st.LearnersNext, st.AutoLeave, n.cfg.Async, len(n.appendQ), len(n.appendResps), len(n.applyQ), len(n.applyResps), n.rd != nil, len(st.Msgs), len(st.MsgsAfterAppend))
+		if c.opt.Debug {
+			s += "    log terms:"
+			for _, e := range c.chk.nc[id].log {
+				s += fmt.Sprintf(" %d:%d", e.GetIndex(), e.GetTerm())
+			}
+			s += fmt.Sprintf(" (prev term %d)\n", c.chk.nc[id].prevTerm)
+			if vg := c.vg; vg != nil {
+				s += vg.dump()
+			}
+		}
 		if st.State == raft.StateLeader {
 			for _, pid := range st.ProgressIDs {
 				pr := st.Progress[pid]
